@@ -9,7 +9,8 @@ import z3
 from z3 import BitVecVal, BoolVal, And, Or, Not, If, ULT, ULE, UGT, UGE, simplify, is_true, is_false
 from .engine import (Agg, Enum, Ref, Lazy, LazyOv, StrV, Opaque, Panic, FnItem, Closure, UNIT, bv64, conc, EngineError, Unmodelled,
                      fresh_id, Ctx)
-from .mir import parse_place
+from .mir import parse_place, split_top
+from .engine import WIDTH
 from .models import model, MODELS, none, some, opt, ok, err, result, opt_parts, as_str, str_eq, lazy_str
 
 # ---------------------------------------------------------------------------- values
@@ -459,6 +460,19 @@ def m_consume(ctx):
         return drain(eng, ctx.st, ctx.fr, it, init, step, lambda st, fr, acc: fin(st, fr, acc))
     return NotImplemented
 
+@model(r'^<.* as Iterator>::partition::<(?:std::vec::)?Vec<.*>, .*>$')
+def m_partition(ctx):
+    """Iterator::partition into two Vecs: the real predicate closure decides each item"""
+    r = ctx.args[0]; it = ctx.deref(r) if isinstance(r, Ref) else r
+    if not isinstance(it, It): it = mk_iter(ctx.eng, ctx.st, it, 'val')
+    dst, tgt = ctx.dst, ctx.tgt; eng = ctx.eng; clo = ctx.args[1]
+    def step(st, fr, acc, item, k):
+        def after(eng_, s3, f3, kd, rv):
+            b = eng_.term(rv, 'bool')
+            return ('forks', [(b, lambda s4, f4: k(s4, f4, (acc[0] + (item,), acc[1]))), (Not(b), lambda s4, f4: k(s4, f4, (acc[0], acc[1] + (item,))))])
+        return call_closure(eng, st, fr, clo, (Ref(st.alloc(item), ()),), after)
+    return drain(eng, ctx.st, ctx.fr, it, ((), ()), step, lambda st, fr, acc: _finish(eng, st, fr, dst, tgt, Agg((VecV(acc[0]), VecV(acc[1])))))
+
 # ---------------------------------------------------------------------------- Vec
 
 @model(r'^(?:std::vec::)?Vec::<.*>::new$|^<(?:std::vec::)?Vec<.*> as Default>::default$|^(?:std::vec::)?Vec::<.*>::with_capacity$')
@@ -616,8 +630,13 @@ def m_entry_or_insert(ctx):
     if not isinstance(e, EntryV): raise EngineError(f'or_insert on {e!r}')
     r = e.r; m = ctx.deref(r); eng = ctx.eng; dst, tgt = ctx.dst, ctx.tgt
     if not isinstance(m, MapV): raise EngineError(f'entry of {m!r}')
-    if ctx.callee.endswith('or_default'): raise EngineError('or_default: default value of the entry type is not modelled')
-    val = ctx.args[1]; acts = []
+    if ctx.callee.endswith('or_default'):
+        vt = split_top(re.search(r'Entry::<(.*)>::or_default$', ctx.callee, re.S).group(1))[-1].strip()
+        if re.match(r'^(?:std::vec::)?Vec<', vt): val = VecV(())
+        elif re.match(r'^(?:usize|u\d+|i\d+)$', vt): val = BitVecVal(0, WIDTH[vt])
+        else: raise EngineError(f'or_default: default value of {vt} is not modelled')
+    else: val = ctx.args[1]
+    acts = []
     for cond, i in map_lookup_alts(eng, ctx.st, m, e.key):
         if i is None:
             def miss(s2, f2):
